@@ -79,7 +79,20 @@ type pwCase struct {
 // as byte strings, and chosen to be close to each other.
 func pwFamily(k int, seed int64) [4]string {
 	long := strings.Repeat("x", 71)
-	switch k % 8 {
+	switch k % 14 {
+	// never-set candidates that fail the password policy (length outside 8..72): offered to Compare / as `old`, never stored
+	case 8:
+		return [4]string{"", "Password-1-aaaa", "Password-1-aaab", ""}
+	case 9:
+		return [4]string{"", "Password-1-aaaa", "Password-1-aaab", "P"}
+	case 10:
+		return [4]string{"", "Password-1-aaaa", "Password-1-aaab", "Passwor"}
+	case 11:
+		return [4]string{"", "Password-1-aaaa", "Password-1-aaab", strings.Repeat("Password-1-aaaa", 5)[:73]}
+	case 12:
+		return [4]string{"", "Password-1-aaaa", "Password-1-aaab", strings.Repeat("q", 100)}
+	case 13: // 73 bytes whose first 72 are the stored password (bcrypt reads 72 key bytes)
+		return [4]string{"", long + "A", long + "B", long + "AZ"}
 	case 7: // bcrypt keys the cipher with password+NUL repeated cyclically: p and p+NUL+p are the same key
 		return [4]string{"", "abcdefgh", "abcdefgh\x00abcdefgh", "abcdefgh\x00"}
 	case 0: // shared prefix / one is a prefix of the other
